@@ -160,6 +160,8 @@ def change_ignored(bp, k, r):
 
 def _holds_meta_false(bp, v):
     """An ignored parameter holding a configuration flagged meta=False is signature relevant"""
+    if isinstance(v, dict) and "out" in v and spec()[bp["nodes"][v["out"]]["cls"]].get("output") == "param":
+        v = dict(bp["nodes"][v["out"]]["args"]).get("cfg")
     return isinstance(v, dict) and "ref" in v and bp["nodes"][v["ref"]].get("meta") is False
 
 
